@@ -86,6 +86,18 @@ def run_vector(args):
                 elif kind == 'B':  # burst of 30 UPDATEs
                     for b in range(30):
                         r.send(wire.UPDATE, edev.upd_announce((f'198.{b}.{sec}.0', 24)))
+                elif kind[0] in 'ST':
+                    # an uninterrupted inbound stream: one UPDATE every 50 ms (S) / 90 ms (T) for <n> seconds, so that
+                    # every 100 ms read slice of the session loop finds a message
+                    gap = 0.05 if kind[0] == 'S' else 0.09
+                    for b in range(int(float(kind[1:]) / gap)):
+                        if s.closed:
+                            break
+                        r.send(wire.UPDATE, edev.upd_announce((f'198.{b % 250}.{b // 250}.0', 24)))
+                        arrivals.append(round(w.clock.now - t0, 3))
+                        w.settle()
+                        w.advance(gap)
+                    continue
                 arrivals.append(round(w.clock.now - t0, 3))
                 w.settle()
         w.advance(t0 + horizon - w.clock.now)
@@ -212,7 +224,7 @@ def signature(sig):
 
 def run(ctx: core.Ctx) -> None:
     ctx.rule = ('for each (our hold, peer hold, sub-second phase, configured routes, scenario): every arrival vector with <= k sends (KEEPALIVE or UPDATE, '
-                'plus single 30-UPDATE bursts) on a 1-second grid over 3H+5 virtual seconds; non-trivial = distinct (H, scenario, closed, notification, keepalive count) outcome')
+                'plus single 30-UPDATE bursts and uninterrupted streams of one UPDATE per 50 / 90 ms lasting H/3+1.5 and H+1.5 s) on a 1-second grid over 3H+5 virtual seconds; non-trivial = distinct (H, scenario, closed, notification, keepalive count) outcome')
     ctx.assumptions += ['allowance on every deadline: 2 s integer-clock granularity + 0.2 s loop period', 'time only moves when the controller says so']
     pool = mp.Pool(min(16, os.cpu_count() or 1))
     budget = ctx.budget_s or (170 if ctx.tier == 'quick' else 1700)
@@ -224,6 +236,10 @@ def run(ctx: core.Ctx) -> None:
             vecs = list(vectors(horizon, k))
             if (scenario == 'est' or scenario.startswith('slow-ka')) and k >= 1:
                 vecs += [((sec, 'B'),) for sec in range(horizon)]
+                if H:
+                    # dense inbound streams lasting longer than a keepalive interval / longer than the hold time
+                    for dur in (H / 3.0 + 1.5, H + 1.5):
+                        vecs += [((sec, f'{c}{dur:g}'),) for sec in range(0, horizon - int(dur) - 1, 2) for c in 'ST']
             if ctx.elapsed() > budget:
                 ctx.cap(f'{params} k={k}: {len(vecs)} vectors not run (time budget)')
                 continue
